@@ -38,6 +38,7 @@ class Table:
     def __init__(self, repo):
         import gen_logsites
         self.files, self.pk, self.sites = gen_logsites.scan(repo)
+        self.levels = gen_logsites.scan_levels(repo, gen_logsites.scan.trees)
         self.by_file = {}
         for i, s in enumerate(self.sites):
             s['idx'] = i
@@ -135,6 +136,7 @@ def diff_span(a, b):
     return max(len(a), len(b)) - i - j, a[i:len(a) - j], b[i:len(b) - j]
 
 
+TSTAMP = re.compile(r'\d{4}-\d\d-\d\d \d\d:\d\d:\d\d,\d{3}')
 NUMTOK = re.compile(r'\b(?:0x[0-9a-fA-F]{1,16}|\d{1,20})\b')
 # Python's UnicodeDecodeError text: one offending byte, its position and one of a few fixed reasons
 CODEC = re.compile(r"can't decode bytes? (?:0x[0-9a-f]{2}|in position \d+-\d+)(?: in position \d+(?:-\d+)?)?: [a-z ]{1,40}")
@@ -161,6 +163,9 @@ def texts_of(w):
         out.append(('log#%d %s %s %s:%d' % (k, r['name'], r['level'], r['rel'], r['lineno']), ('log', r['rel'], r['lineno'], r['level']), r['all']))
     for k, (step, kind, text) in enumerate(w.messages):
         out.append(('%s#%d step %d' % (kind, k, step), (kind, step), text))
+    for k, (step, variant, requested, text) in enumerate(w.written):
+        if requested != 'DEBUG':        # an operator who asks for DEBUG gets the encodings; every other deployment must not
+            out.append(('server-log-file#%d step %d (%s)' % (k, step, variant), ('server-log-file', step, variant), TSTAMP.sub('<time>', text)))
     return out
 
 
@@ -183,6 +188,8 @@ def run_history(ctx, table, hist, struct_seed, can_seed, cases, meta, stats):
         for kind, form, needle in w.can.scan(text):
             if key[0] == 'log':
                 site = site_name(table, key)
+            elif key[0] == 'server-log-file':
+                site = 'server log file, configuration: ' + key[2]
             else:
                 s, _ = table.locate_message(text)
                 site = 'message' if s is None else '%s:%s' % (s['file'], s['func'])
@@ -195,6 +202,36 @@ def run_history(ctx, table, hist, struct_seed, can_seed, cases, meta, stats):
                    'how_to_replay': 'bin/check C20 --replay <this file>'}
             ctx.violation(sig, wit, '%s canary (%s form) appears in %s at %s' % (kind, form, key[0], site))
             stats['canary_hits'] += 1
+    # ---- the default level itself (start-up leg)
+    default = getattr(table, 'levels', {}).get('default_value', 20)
+    names = {v: k for k, v in getattr(table, 'levels', {}).get('level_table', {}).items()}
+    for chk in w.level_checks:
+        stats['level_checks'] += 1
+        want = default if chk['requested'] is None else {'DEBUG': 10, 'INFO': 20, 'WARNING': 30, 'ERROR': 40, 'CRITICAL': 50}[chk['requested']]
+        low = {n: l for n, l in chk['effective'].items() if l != want}
+        ctx.count('startup.%s' % ('default' if chk['requested'] is None else chk['requested']))
+        if not low and not any(h not in (0,) and h > want for h in chk['handler_levels']):
+            continue
+        if chk['requested'] is None and any(l < default for l in low.values()):
+            ctx.violation({'oracle': 'effective-level', 'configuration': 'default', 'effective': min(low.values())},
+                          {'history': hist['name'], 'layer': hist['layer'], 'struct_seed': struct_seed, 'canary_seed': can_seed,
+                           'variant': chk['variant'], 'server_conf': chk['config'], 'constructor_logging_level': chk['constructor_logging_level'],
+                           'effective_levels': chk['effective'], 'expected': default,
+                           'how_to_replay': 'bin/check C20 --replay <this file>'},
+                          'with a configuration that names no logging level the server loggers run at level %d (%s), not at the default %d: '
+                          'debug records (request/response encodings) are written' % (min(low.values()), names.get(min(low.values()), '?'), default))
+        else:
+            ctx.disagreement('startup-levels', {'variant': chk['variant'], 'requested': chk['requested'], 'effective': chk['effective'],
+                                                'handler_levels': chk['handler_levels'], 'expected': want})
+    for step, variant, requested, text in w.written:
+        # the leg must really observe what the server writes: an explicit DEBUG deployment shows the encodings,
+        # every deployment shows the INFO line of the connection
+        if 'Receiving incoming connection' not in text and requested in (None, 'INFO', 'DEBUG'):
+            ctx.disagreement('startup-leg', {'variant': variant, 'what': 'the server log file lacks the INFO records of the connection', 'bytes': len(text)})
+        if requested == 'DEBUG' and 'Request encoding' not in text:
+            ctx.disagreement('startup-leg', {'variant': variant, 'what': 'explicit DEBUG but no "Request encoding" record in the file', 'bytes': len(text)})
+        if requested == 'DEBUG':
+            stats['debug_files_with_secret'] += 1 if w.can.scan(text) else 0
     # ---- tie K
     if getattr(table, 'empty', False):
         return w
@@ -342,7 +379,7 @@ def run(ctx):
         'unexplained_messages': stats['unexplained_messages'], 'template_records': stats['template_records'],
         'not_coq_printable': stats['not_coq_printable'], 'canary_hits': stats['canary_hits'],
         'swap_text_diffs': stats['swap_diffs'], 'client_exception_texts_with_secret (outside the property)': stats['client_exception_texts_with_secret'], 'swap_outcome_dependent': stats['swap_outcome_dependent'],
-        'table_sites': len(table.sites), 'observable_sites': len(obs_sites),
+        'startup_level_checks': stats['level_checks'], 'explicit_debug_log_files_showing_canaries (sanity of the leg)': stats['debug_files_with_secret'], 'table_sites': len(table.sites), 'observable_sites': len(obs_sites),
         'distinct_sites_exercised': len(stats['sites_hit']),
         'log_sites_info_plus': len([s for s in obs_sites if s['kind'].startswith('KLog')]),
         'log_sites_info_plus_exercised': len([s for s in obs_sites if s['kind'].startswith('KLog') and s['idx'] in stats['sites_hit']]),
